@@ -11,6 +11,13 @@ from .model import Model, numel
 EPS = {"float32": 1.1920929e-07, "float64": 2.220446049250313e-16}
 
 
+def spec_eps(spec):
+    """Unit round-off governing a program: float32's as soon as any value passes through float32."""
+    if spec["dtype"] == "float32" or any(n["op"] == "cast" for n in spec["nodes"]):
+        return EPS["float32"]
+    return EPS["float64"]
+
+
 # ----------------------------------------------------------------------------------------------
 # schedules (S1)
 # ----------------------------------------------------------------------------------------------
@@ -61,7 +68,7 @@ class World:
         self.t = self.graph.t
         self.dtype_name = spec["dtype"]
         self.dtype = DTYPES[spec["dtype"]]
-        self.eps = EPS[spec["dtype"]]
+        self.eps = spec_eps(spec)
         self.leaf_names = list(self.graph.leaf_names)
         self.names = self.graph.leaf_names + self.graph.node_names
         self._name_of = {id(self.t[n]): n for n in self.names}
@@ -314,7 +321,7 @@ def aggregate_model(agg_spec, J, Jabs, eps, depth, dtype_name):
     pref = agg_spec.get("pref") or [1.0]
     amp = 100.0 * m * (1.0 + max(abs(x) for x in pref))
     tol = np.full(J.shape[1], 1e-6 * (s + float(np.abs(vec).max() if vec.size else 0.0)) + amp * float(Jerr.max()) + 1e-290)
-    if dtype_name == "float32":
+    if dtype_name == "float32" or eps > 1e-10:
         tol = tol * 1e3
     return {"vec": vec, "tol": tol, "ambiguous": False}
 
